@@ -26,6 +26,7 @@ type val struct {
 	kind string // u8 u16 u24 u32 u64 i8 i16 i24 i32 i64 bytes
 	u    uint64
 	b    []byte
+	flip bool // written and read in the other byte order than the script's (the order may change from value to value)
 	via  int // byte strings: 0 WriteBytes/ReadBytes, 1 Write (io.Writer)/ReadBytes, 2 WriteString/ReadString
 }
 
@@ -72,9 +73,10 @@ func genVal(t *rapid.T) val {
 }
 
 // reference encoding, independent of BinaryWriter
-func refEncode(vals []val, little bool) []byte {
+func refEncode(vals []val, scriptLittle bool) []byte {
 	var out []byte
 	for _, v := range vals {
+		little := scriptLittle != v.flip
 		if v.kind == "bytes" {
 			out = append(out, v.b...)
 			continue
@@ -289,12 +291,17 @@ type opened struct {
 }
 
 var tmpDir string
+var bigData bool // open() serves megabytes
 var tmpCount int
 
 func open(t *rapid.T, backend string, data []byte) opened {
 	chunk := rapid.SampledFrom([]int{0, 1, 2, 7}).Draw(t, "chunk")
 	eofWith := rapid.Bool().Draw(t, "eofWith")
 	scribble := rapid.Bool().Draw(t, "scribble")
+	if bigData {
+		// megabytes: reads of a few bytes each, or a reader that scribbles over a megabyte per call, take for ever
+		chunk, scribble = rapid.SampledFrom([]int{0, 4096, 65536, 1<<20 + 7}).Draw(t, "bigchunk"), false
+	}
 	mk := func(r io.Reader, n int64) opened {
 		br, err := parse.NewBinaryReaderReader(r, n)
 		if err != nil {
@@ -384,8 +391,11 @@ func TestProp_RoundTrip(t *testing.T) {
 		little := rapid.Bool().Draw(t, "little")
 		nv := rapid.IntRange(1, 12).Draw(t, "nvals")
 		vals := make([]val, nv)
+		mixed := rapid.IntRange(0, 3).Draw(t, "mixedorder") == 0
 		for i := range vals {
 			vals[i] = genVal(t)
+			// a stream may change its byte order on the way (behind a byte-order mark, say): ByteOrder is a field
+			vals[i].flip = mixed && rapid.Bool().Draw(t, "flip")
 		}
 		pre := rapid.SliceOfN(rapid.Byte(), 0, 3).Draw(t, "prefix")
 		w := parse.NewBinaryWriter(append(make([]byte, 0, len(pre)+rapid.IntRange(0, 16).Draw(t, "spare")), pre...))
@@ -396,6 +406,10 @@ func TestProp_RoundTrip(t *testing.T) {
 			w.ByteOrder = binary.LittleEndian
 		}
 		for _, v := range vals {
+			w.ByteOrder = binary.BigEndian
+			if little != v.flip {
+				w.ByteOrder = binary.LittleEndian
+			}
 			write(w, v)
 		}
 		full := refEncode(vals, little)
@@ -434,6 +448,8 @@ func TestProp_RoundTrip(t *testing.T) {
 			// it) must not reach the data that are read afterwards, which are compared with the untouched original
 			o := open(t, backend, append(make([]byte, 0, len(data)+8), data...))
 			r := o.r
+			scriptLittle := little
+			curLittle := little
 			if little {
 				r.ByteOrder = binary.LittleEndian
 			}
@@ -591,8 +607,8 @@ func TestProp_RoundTrip(t *testing.T) {
 						case 8:
 							got = c.ReadUint64()
 						}
-						if want := refDecode(data[cpos:cpos+w], little); got != want {
-							t.Fatalf("%s: clone read a %d-byte value at %d (little=%v) = %#x, want %#x", backend, w, cpos, little, got, want)
+						if want := refDecode(data[cpos:cpos+w], curLittle); got != want {
+							t.Fatalf("%s: clone read a %d-byte value at %d (little=%v) = %#x, want %#x", backend, w, cpos, curLittle, got, want)
 						}
 						cpos += w
 						if c.Pos() != cpos || c.Err() != nil {
@@ -615,6 +631,12 @@ func TestProp_RoundTrip(t *testing.T) {
 				}
 			}
 			for i, v := range vals {
+				little := scriptLittle != v.flip
+				curLittle = little
+				r.ByteOrder = binary.BigEndian
+				if little {
+					r.ByteOrder = binary.LittleEndian
+				}
 				for _, e := range extras[i] {
 					if pos >= 0 {
 						doExtra(e)
